@@ -510,11 +510,12 @@ def doXmlFmtE (args : List String) : String :=
     | _, _, _ => "bad-op"
   | _ => "bad-op"
 
-/-- proj <tree>: the accept-all and the reject-all projection of an output tree (`Fin.accFT`, `Fin.rejFT`) -/
+/-- proj <tree>: the accept-all and the reject-all projection of an output tree (`Fin.accFT`, `Fin.rejFT`), and the
+reject-all projection with the attribute annotations decoded (`Fin.rejFTA`) -/
 def doProj (args : List String) : String :=
   match args with
   | [ts] => match decTree ts with
-    | some t => "ok " ++ encTree (Fin.accFT t) ++ " | " ++ encTree (Fin.rejFT t)
+    | some t => "ok " ++ encTree (Fin.accFT t) ++ " | " ++ encTree (Fin.rejFT t) ++ " | " ++ encTree (Fin.rejFTA t)
     | none => "bad-op"
   | _ => "bad-op"
 
